@@ -114,7 +114,7 @@ func TestVerifSha3Histories(t *testing.T) {
 		"clone:absorbing-partial-block", "clone:squeezing", "clone:squeezing-mid-block", "reset:nonempty", "reset:while-squeezing",
 		"turbo128:all-127-domain-bytes", "turbo256:all-127-domain-bytes")
 	fams := sha3Families()
-	per := lib.Scale(64, 6000) // 6 x per + 2 x 2per (TurboSHAKE: every domain byte) = 640 / 60 000 histories
+	per := scale(200, 6000) // 6 x per + 2 x 2per (TurboSHAKE: every domain byte) = 2 000 / 60 000 histories
 	type job struct {
 		f sha3Family
 		k int
@@ -171,7 +171,7 @@ func TestVerifSha3Histories(t *testing.T) {
 func TestVerifOneShot(t *testing.T) {
 	const mon = "TestVerifOneShot"
 	lib.Mandatory("oneshot")
-	n := lib.Scale(400, 20000)
+	n := scale(400, 20000)
 	lens := append([]int{0, 1, 71, 72, 73, 103, 104, 105, 135, 136, 137, 143, 144, 145, 167, 168, 169, 335, 336, 337}, bigLens()[:9]...)
 	lib.Par(n, func(i int) {
 		r := lib.NewRng("c15/oneshot", i)
@@ -306,7 +306,23 @@ func TestVerifXofHistories(t *testing.T) {
 		{xof.BLAKE2XS, "xof.BLAKE2XS", 64, refBlake2xs, bigLens()[:6], []int{32}, nil, 5000},
 		{xof.K12D10, "xof.K12D10", 168, func(m []byte, n int) []byte { return keccak.K12(m, nil, n) }, hist.K12Lens(0, lanes), []int{8192, lanes * 8192}, hist.K12Hook("xof.K12D10", 0, lanes), 80000},
 	}
-	per := lib.Scale(60, 6000) // x 5 = 300 / 30 000
+	// Observation only (outside C15): xof.XOF documents that Write panics after
+	// Read.  Record which subjects do, in both K12 phases.
+	for _, f := range fams {
+		for _, ml := range []int{10, 3 * 8192} {
+			x := f.id.New()
+			x.Write(make([]byte, ml))
+			x.Read(make([]byte, 8))
+			p := lib.Try(f.name+".Write-after-Read", nil, func() { x.Write([]byte{1, 2, 3}) })
+			if p != nil {
+				lib.Count("write-after-read:panics")
+			} else {
+				lib.Count("write-after-read:accepted-silently")
+				lib.Note("%s: Write after Read (after a %d-byte message) did not panic although xof.XOF documents that it does (outside property C15; observation only)", f.name, ml)
+			}
+		}
+	}
+	per := scale(200, 6000) // x 5 = 1 000 / 30 000
 	lib.Par(len(fams)*per, func(i int) {
 		f := fams[i%len(fams)]
 		k := i / len(fams)
@@ -359,7 +375,7 @@ func TestVerifK12Histories(t *testing.T) {
 			directed = append(directed, dcase{cl, ml})
 		}
 	}
-	n := 2*len(directed) + lib.Scale(100, 20000)
+	n := 2*len(directed) + scale(400, 20000)
 	lib.Par(n, func(i int) {
 		r := lib.NewRng("c15/k12/custom", i)
 		cl := customLens[i%len(customLens)]
